@@ -117,9 +117,14 @@ def replaceAllAux (pat by_ : List Char) : Nat → List Char → List Char
 /-- `str.replace(pat, by)` -/
 def replaceAll (pat by_ l : List Char) : List Char := replaceAllAux pat by_ (l.length + 1) l
 
-/-- the first declared prefix `p` (dictionary order) with `tok.startswith(p + ":")`, expanded -/
+/-- `unprefixize_uri_mandatory`'s search: the first declared prefix `p` (dictionary order) with `tok.startswith(p + ":")`, expanded -/
 def unprefixize (prefixes : List (List Char × List Char)) (tok : List Char) : Option (List Char) :=
   (prefixes.find? fun (p, _) => (p ++ [':']).isPrefixOf tok).map fun (p, ns) => replaceAll (p ++ [':']) ns tok
+
+/-- `unprefixize_uri_if_possible`: as `unprefixize`, except that `pre://…` is a full IRI, never the prefixed name `pre:` + `//…` -/
+def unprefixizeSoft (prefixes : List (List Char × List Char)) (tok : List Char) : Option (List Char) :=
+  (prefixes.find? fun (p, _) => (p ++ [':']).isPrefixOf tok && !(p ++ [':', '/', '/']).isPrefixOf tok).map
+    fun (p, ns) => replaceAll (p ++ [':']) ns tok
 
 def digits (l : List Char) : Bool := !l.isEmpty && l.all Char.isDigit
 
@@ -152,7 +157,7 @@ def expandDatatype (ctx : Ctx) (tok : List Char) : List Char :=
   match suffix with
   | '^' :: '^' :: '<' :: _ => tok
   | '^' :: '^' :: dt =>
-    match unprefixize ctx.prefixes dt with
+    match unprefixizeSoft ctx.prefixes dt with
     | some e => head ++ ['^', '^', '<'] ++ e ++ ['>']
     | none => tok
   | _ => tok
